@@ -113,6 +113,20 @@ def run_groups(ctx, pool, groups, tag, stats, shrink_budget, futs=None):
             ctx.violation(key, what, {"case": cj, "disagreement": d_model, "permutation": d_perm})
 
 
+def observe_no_order_by(ctx, pool):
+    """outside the property's quantifier (no order by => nothing is ordered, every datapoint of a partition is a peer): recorded, not judged.
+    The engine applies the default frame `unbounded preceding .. current data point` in PHYSICAL row order."""
+    d = A.gen_dataset(ctx.rng, nrows=9, measure_types=["Integer"])
+    inv = {"level": "ds", "f": "sum", "part": ["Id_1"], "ord": [], "win": None, "ties": True}
+    g = {"ds": d, "invs": [inv], "perm": list(reversed(range(len(d["rows"]))))}
+    er = pool.map([A.group_job(g)])[0]
+    if "harness_error" in er:
+        return
+    diff = A.perm_diff(er["a"][0], er["b"][0])
+    ctx.cov["observations"] = [{"statement": "DS_r <- " + A.inv_text(inv) + ";", "outside_quantifier": "no order by clause",
+                                "result_depends_on_input_row_order": diff is not None, "detail": (diff or "")[:300]}]
+
+
 def verdict(pool, cj, tag):
     g = A.group_from_case(cj)
     ren = A.result_renames(g)
@@ -165,6 +179,7 @@ def run(ctx):
         ctx.prove(PID)
         for bi, batch in enumerate(batches):
             run_groups(ctx, pool, batch, "c06_k", stats, budget, futs=first if bi == 0 else None)
+        observe_no_order_by(ctx, pool)
     finally:
         pool.close()
     ctx.cov["distribution"] = {k: (dict(sorted(v.items(), key=lambda x: -x[1])) if isinstance(v, dict) and k != "rows" else v) for k, v in stats.items()}
